@@ -34,6 +34,10 @@ func valueSource(kind string) string {
 		return "segment stats"
 	case "crup":
 		return "roll-up"
+	case "sfm", "segmeta":
+		// record count, time range, column names: count-type queries are answered from them (a
+		// damaged segmeta.json line can register a phantom segment whose recordCount is added)
+		return "segment meta"
 	case "tsg", "tso", "mbsu", "mnm", "tth", "mmeta":
 		// no file of a metrics segment carries a checksum: which series and which values come back
 		// after damage to them is outside the statement's "checksummed column block"
@@ -395,8 +399,11 @@ func (v *verdict) judgeStats(q querySpec, a, b *answer) *viol {
 			wc, _ := measure(want, "count")
 			pure := wc == ctrlShare.count // only the undamaged segment contributes on undamaged files
 			switch {
-			case sideFile || !pure:
-				// the damaged segment (or a side file that stores its group keys) may add to this group
+			case sideFile:
+				// a side file that stores group keys and aggregates of the damaged segment may add
+				// anything (also negative sums) to this group: only its presence is required
+			case !pure:
+				// the damaged segment may add to this group
 				if !includesShare(got, ctrlShare) {
 					return violf("cross", "query %q: group %q lost the share of the UNDAMAGED segment: %v, undamaged segment alone %v %s", q.Text, key, got, ctrlShare, errInfo(a))
 				}
@@ -450,7 +457,7 @@ func (v *verdict) judgeStats(q querySpec, a, b *answer) *viol {
 	if m == nil || len(a.Buckets) != 1 {
 		return violf(ctrlSym(a), "query %q returns %d results although the UNDAMAGED segment holds events %s", q.Text, len(a.Buckets), errInfo(a))
 	}
-	if !includesShare(m, share) {
+	if !sideFile && !includesShare(m, share) {
 		return violf("cross", "query %q: the result lost the share of the UNDAMAGED segment: %v, undamaged segment alone %v %s", q.Text, m, share, errInfo(a))
 	}
 	same := sameBucket(m, bm)
@@ -534,12 +541,15 @@ func knownFinding(fc *faultCase, sym, detail string) string {
 			}
 		}
 	case "cmi":
+		// "out of memory" anywhere: readCmis has taken up to 4 GiB for the damaged length, the next
+		// large allocation (e.g. the star-tree buffer) is the one that fails
 		if sym == "crash" && (strings.Contains(detail, "readCmis") || strings.Contains(detail, "metareader.go") ||
-			strings.Contains(detail, "doBloomCheckForCol") || strings.Contains(detail, "bloom")) && pt.KnownFindingOpen("C18-cmi-reader-unchecked") {
+			strings.Contains(detail, "doBloomCheckForCol") || strings.Contains(detail, "bloom") || strings.Contains(detail, "out of memory")) &&
+			pt.KnownFindingOpen("C18-cmi-reader-unchecked") {
 			return "C18-cmi-reader-unchecked"
 		}
 	case "crup":
-		if sym == "crash" && (strings.Contains(detail, "rollupreader.go") || strings.Contains(detail, "readRollupFile")) &&
+		if sym == "crash" && (strings.Contains(detail, "rollupreader.go") || strings.Contains(detail, "readRollupFile") || strings.Contains(detail, "out of memory")) &&
 			pt.KnownFindingOpen("C18-rollup-reader-unchecked") {
 			return "C18-rollup-reader-unchecked"
 		}
@@ -734,7 +744,7 @@ func v18hang(fc *faultCase, o *pt.Obs, step, detail string) error {
 
 func datasetSeeds() []int {
 	if pt.Thorough() {
-		return []int{11, 12, 13, 14}
+		return []int{11} // enumerated completely
 	}
 	return []int{11, 12}
 }
